@@ -66,3 +66,84 @@ gai_strerror(int e)
 	(void)e;
 	return ("model");
 }
+
+/*
+ * inet_ntop(af, src, dst, size): reads 4 (AF_INET) or 16 (AF_INET6) bytes at src; returns NULL (errno) or dst holding a
+ * NUL-terminated string of fewer than `size` characters (content: the library's business).
+ * ntohs: byte swap.  verif_sa_asprintf2/3 (stand-ins for libcperciva_asprintf of util/asprintf.c, see contracts/util__sock_util.c.spec): -1, or *ret = a new NUL-terminated string (its content is
+ * vsnprintf's business; formatting is not what the sock_util groups are about).
+ */
+size_t nondet_size_t(void);
+void * malloc(size_t);
+
+const char *
+inet_ntop(int af, const void * src, char * dst, socklen_t size)
+{
+	const unsigned char * s = src;
+	unsigned acc = 0;
+	size_t n, k, len;
+	(void)&k;
+	(void)&acc;
+
+	if (af != AF_INET && af != AF_INET6)
+		return (NULL);
+	n = (af == AF_INET) ? 4 : 16;
+	for (k = 0; k < 16; k++)
+		if (k < n)
+			acc += s[k];		/* the address bytes are read */
+	(void)acc;
+	if (size == 0 || nondet_bool())
+		return (NULL);
+	len = nondet_size_t();
+	__CPROVER_assume(len < size);
+	for (k = 0; k < 64; k++)
+		if (k < len)
+			dst[k] = (char)('0' + (nondet_uchar() % 10));
+	if (size > 64 && len >= 64) {
+		__CPROVER_assert(0, "MODEL-BOUND inet_ntop: buffer larger than 64");
+		__CPROVER_assume(0);
+	}
+	dst[len] = '\0';
+	return (dst);
+}
+
+#undef ntohs
+uint16_t
+ntohs(uint16_t x)
+{
+
+	return ((uint16_t)(((x & 0xff) << 8) | (x >> 8)));
+}
+
+/* fixed-arity stand-ins for the two asprintf() call shapes of util/sock_util.c ("[%s]:%d" and "%s:0") */
+static int
+verif_sa_asprintf_common(char ** ret, const char * format, const char * str)
+{
+	size_t len;
+	char * p;
+
+	(void)strlen(format);
+	(void)strlen(str);		/* %s reads its argument up to the NUL */
+	len = nondet_size_t();
+	__CPROVER_assume(len < 80);
+	if ((p = malloc(len + 1)) == NULL)
+		return (-1);
+	p[len] = '\0';
+	*ret = p;
+	return ((int)len);
+}
+
+int
+verif_sa_asprintf3(char ** ret, const char * format, const char * str, int num)
+{
+
+	(void)num;
+	return (verif_sa_asprintf_common(ret, format, str));
+}
+
+int
+verif_sa_asprintf2(char ** ret, const char * format, const char * str)
+{
+
+	return (verif_sa_asprintf_common(ret, format, str));
+}
